@@ -136,6 +136,9 @@ pub fn judge(sc: &Scenario, rep: &LoopReport) -> Judged {
                 if x.line.contains("movestogo") {
                     j.probes.add("go_with_movestogo", 1);
                 }
+                if x.line.contains("depth") {
+                    j.probes.add("go_with_depth_cap_next_to_the_clocks", 1);
+                }
                 j.distinct.push(hash_str(&format!("{}|{}|{}|{}", side, rem, inc, x.line.split_whitespace().filter(|t| t.ends_with("time") || t.ends_with("inc")).collect::<Vec<_>>().join(","))));
                 // the clock as the GUI sees it: virtual time from the go to its bestmove must fit
                 // in the mover's remaining time (plus what C07 allows a search to overrun its
@@ -223,6 +226,21 @@ fn inc_value(rng: &mut Rng, rem: u64) -> u64 {
 
 /// `movestogo` is part of what a GUI sends along with the clocks; it is put before or after
 /// the clock tokens (never between them) and twins carry the same value.
+/// A depth cap next to the clocks (what a GUI sends when both a time control and a depth
+/// limit are set): before the clock tokens or after all of them. The budget is still due.
+fn with_depth(rng: &mut Rng, line: String, depth: Option<u64>) -> String {
+    match depth {
+        None => line,
+        Some(d) => {
+            if rng.chance(1, 2) {
+                format!("{} depth {}", line, d)
+            } else {
+                format!("go depth {}{}", d, &line[2..])
+            }
+        }
+    }
+}
+
 fn with_movestogo(rng: &mut Rng, line: String, mtg: Option<u64>) -> String {
     match mtg {
         None => line,
@@ -297,6 +315,9 @@ pub fn generate(seed: u64, long: bool) -> Scenario {
         let mtg = if with_inc && rng.chance(1, 6) { Some(*rng.pick(&[1u64, 1, 2, 3, 5, 10, 24, 25, 40])) } else { None };
         let first = go_line(&mut rng, p.white_to_move, rem, inc, orem, oinc, with_inc);
         let first = with_movestogo(&mut rng, first, mtg);
+        // one go in eight also carries a depth cap (small, or far beyond the budget)
+        let dcap = if rng.chance(1, 8) { Some(*rng.pick(&[1u64, 2, 3, 30, 64])) } else { None };
+        let first = with_depth(&mut rng, first, dcap);
         sc.lines.push(first);
         let a = sc.lines.len() - 1;
         // twin: opponent's clock and increment replaced, tokens permuted again
@@ -305,6 +326,7 @@ pub fn generate(seed: u64, long: bool) -> Scenario {
             let oinc2 = rng.range(0, 60_000);
             let twin = go_line(&mut rng, p.white_to_move, rem, inc, orem2, oinc2, with_inc);
             let twin = with_movestogo(&mut rng, twin, mtg);
+            let twin = with_depth(&mut rng, twin, dcap);
             sc.lines.push(twin);
             sc.twins.push((a, sc.lines.len() - 1));
         }
@@ -500,7 +522,7 @@ pub fn run(ctx: &Ctx) -> i32 {
     });
     let ev = Evidence {
         level: "exploration",
-        rule: "One sim = one simulated match fragment (1-14 plies from startpos or a playout FEN, both colours to move): per ply `position ... moves ...` and `go wtime W btime B [winc I binc J]` with the tokens in a seeded order (one go in six also carries `movestogo n` before or after them), clock values from 0 / 1 ms / below the 5 s reserve / around it / seconds / minutes / hours, increments 0 / small / large / equal to or larger than the remaining time; the mover's clock is then debited and credited like a GUI does. Most sims let every search expire at its first clock read (the budget is observed where the real go handler arms the real timer, so the search itself is irrelevant); one in five runs real searches under a cost model, and one sim in twenty lets the engine think long (1-5 us per node, budgets of 0.2-2.5 s: 10^5..10^6 nodes per move, time scrambles with a large increment or comfortable clocks), where additionally the virtual time from go to bestmove must not exceed the mover's remaining time by more than the overrun C07 allows (4096 nodes). Each go is followed by a twin with the opponent's clock and increment replaced and the tokens permuted. Oracle: a budget is armed; budget <= mover's remaining time; < when any time remains; twin arms the same budget; in sims whose searches really run, bestmove comes within the mover's remaining time. Evaluations = clocked go commands judged; distinct by (side, remaining, increment, token order).".into(),
+        rule: "One sim = one simulated match fragment (1-14 plies from startpos or a playout FEN, both colours to move): per ply `position ... moves ...` and `go wtime W btime B [winc I binc J]` with the tokens in a seeded order (one go in six also carries `movestogo n`, one in eight a `depth` cap, before or after them), clock values from 0 / 1 ms / below the 5 s reserve / around it / seconds / minutes / hours, increments 0 / small / large / equal to or larger than the remaining time; the mover's clock is then debited and credited like a GUI does. Most sims let every search expire at its first clock read (the budget is observed where the real go handler arms the real timer, so the search itself is irrelevant); one in five runs real searches under a cost model, and one sim in twenty lets the engine think long (1-5 us per node, budgets of 0.2-2.5 s: 10^5..10^6 nodes per move, time scrambles with a large increment or comfortable clocks), where additionally the virtual time from go to bestmove must not exceed the mover's remaining time by more than the overrun C07 allows (4096 nodes). Each go is followed by a twin with the opponent's clock and increment replaced and the tokens permuted. Oracle: a budget is armed; budget <= mover's remaining time; < when any time remains; twin arms the same budget; in sims whose searches really run, bestmove comes within the mover's remaining time. Evaluations = clocked go commands judged; distinct by (side, remaining, increment, token order).".into(),
         extra: serde_json::Map::new(),
         assumptions: vec!["the oracle reads wtime/btime/winc/binc as 'token followed by its value, in any order'; nothing is asserted about the allocation formula".into()],
         exhaustive: None,
